@@ -18,11 +18,11 @@ CLASSES = ['StorySend', 'StoryAppend', 'StoryDelete', 'StoryInsert', 'StoryMove'
            'EAItemInsert', 'EAStorySwap', 'EAItemSwap', 'EAStoryMove', 'EAItemMove']
 
 DUR = ['0', '1', '2.5', '3', '10', '12.25', '0.125', '7.75', '60', '31', ' 3 ', '+2', '1e1', '25e-1', '0.5E1', '1.50', '007', '.5', '5.', '\t4\n']
-TEXTS = ['plain text', ' padded ', '(note)', '<tech>', '(half', 'half>', 'Ünïcödé ☃ 𝄞', 'a & b < c > d "q" \'s\'',
+TEXTS = ['cafe\u0301 (decomposed)', '\u2126\u212b',  'plain text', ' padded ', '(note)', '<tech>', '(half', 'half>', 'Ünïcödé ☃ 𝄞', 'a & b < c > d "q" \'s\'',
          '', None, '\t', 'line1\nline2', '  (  spaced note )  ', 'x' * 40]
 
 
-SPECIAL_IDS = ["O'NEILL", 'say "x"', 'a]b', '[1]', 'a=b', '*', '.', '..', 'a/b', '@id', '{ns}x', 'a b', "x'y\"z", '-', 'None', '%s', '{0}', '&amp;', '<x>', 'é', '𝄞']
+SPECIAL_IDS = ['e\u0301', '\u212b', "O'NEILL", 'say "x"', 'a]b', '[1]', 'a=b', '*', '.', '..', 'a/b', '@id', '{ns}x', 'a b', "x'y\"z", '-', 'None', '%s', '{0}', '&amp;', '<x>', 'é', '𝄞']
 
 
 class Gen:
@@ -239,14 +239,16 @@ def _random_message(g, state, message_id, cls=None, p=0.8):
     if cls == 'StoryDelete':
         return cls, B.story_delete(pick_sources(r, sids), **kw)
     if cls == 'StoryInsert':
-        car = [g.new_story(r.choice(sids) if sids and r.random() < 0.2 and sids[0] else None) for _ in range(r.randrange(1, 4))]
+        car = [g.new_story(r.choice(sids) if sids and r.random() < 0.2 and sids[0] else None) for _ in range(r.randrange(1, 5))]
+        if r.random() < 0.15 and car:
+            car.append(g.new_story(TJ.child_text(car[0], 'storyID')))       # the same story listed twice in one message
         return cls, B.story_insert(pick_ref(r, sids, p), car, **kw)
     if cls == 'StoryMove':
         n = r.choice([1, 2, 2, 2, 0])
         ids = [pick_ref(r, sids, p) for _ in range(n)]
         return cls, B.story_move(ids, **kw)
     if cls == 'StoryReplace':
-        return cls, B.story_replace(pick_ref(r, sids, p), [g.new_story() for _ in range(r.randrange(0, 3))], **kw)
+        return cls, B.story_replace(pick_ref(r, sids, p), [g.new_story() for _ in range(r.randrange(0, 5))], **kw)
     if cls == 'ItemDelete':
         return cls, B.item_delete(sref, pick_sources(r, iids), **kw)
     if cls == 'ItemInsert':
@@ -256,11 +258,16 @@ def _random_message(g, state, message_id, cls=None, p=0.8):
         tgt = pick_ref(r, [i for i in iids if i not in srcs] or iids, p)
         return cls, B.item_move_multiple(sref, srcs + [tgt], **kw)
     if cls == 'ItemReplace':
-        return cls, B.item_replace(sref, pick_ref(r, iids, p), [g.new_item() for _ in range(r.randrange(0, 3))], **kw)
+        tgt = pick_ref(r, iids, p)
+        car = [g.new_item() for _ in range(r.randrange(0, 4))]
+        if car and isinstance(tgt, str) and r.random() < 0.25:
+            car.insert(r.randrange(len(car)), g.new_item(tgt))          # a replacement re-using the replaced item's ID
+        return cls, B.item_replace(sref, tgt, car, **kw)
     if cls == 'ReadyToAir':
         return cls, B.ready_to_air(**kw)
     if cls == 'RunningOrderReplace':
         return cls, B.ro_replace([g.new_story() for _ in range(r.randrange(0, 4))], pattern=r.choice(B.PATTERNS),
+                                 slug=r.choice(['replaced slug', 'replaced slug', '  Late   News ', '\n padded \n', 'Ünï']),
                                  ed_start=r.choice([None, '2021-03-04T09:30:00']), **kw)
     if cls == 'MetaDataReplace':
         ch = []
@@ -276,7 +283,7 @@ def _random_message(g, state, message_id, cls=None, p=0.8):
             ch.append(E(r.choice(['roChannel', 'roEdDur', 'roTrigger']), text=r.choice([None, None, ' ', '\n  '])))   # a field sent empty
         return cls, B.metadata_replace(ch, **kw)
     if cls == 'EAStoryReplace':
-        return cls, B.ea('REPLACE', {'storyID': pick_ref(r, sids, p)}, [[g.new_story() for _ in range(r.randrange(0, 3))]], **kw)
+        return cls, B.ea('REPLACE', {'storyID': pick_ref(r, sids, p)}, [[g.new_story() for _ in range(r.randrange(0, 5))]], **kw)
     if cls == 'EAItemReplace':
         return cls, B.ea('REPLACE', {'storyID': sref, 'itemID': pick_ref(r, iids, p)},
                          [[g.new_item() for _ in range(r.randrange(0, 3))]], **kw)
